@@ -392,6 +392,8 @@ def run(ctx):
     if TRC is not None:
         ctx.guard("validate", validate, ctx, TRC)
     numerics(ctx)
+    if not ctx.violations:
+        public_api(ctx)
     ctx.rule = ("(mu, point L1..L5, degree N, direction in phase space) x radii; remainder exponents fitted over radii; distinct by (mu, point, N); "
                 "non-trivial = every case")
 
@@ -427,6 +429,58 @@ def validate(ctx, TRC):
                     return
     ctx.obligations["trace-validation"] = True
     ctx.extra["trace_validation_worst_abs_err"] = worst
+
+
+def public_api(ctx):
+    """the observation points the property names: `point.hamiltonian(N, 'physical')` (polynomial, `__call__`, `hamsys.rhs`) for several points
+    and systems IN ONE SESSION (the library caches pipelines and compiled right-hand sides): the polynomial handed out is bit for bit the one the
+    builder produces for THAT point, its exposed vector field is the Hamilton field of ITS polynomial, and the local origin is the point."""
+    from hiten import System
+    from hiten.algorithms.dynamics.hamiltonian import _hamiltonian_rhs
+    from hiten.algorithms.hamiltonian import transforms as tr
+    from hiten.algorithms.hamiltonian.hamiltonian import _build_physical_hamiltonian_collinear
+    rng = ctx.rng
+    N = 4
+    # Earth-Moon, then two Sun-planet-like systems whose mass parameters agree to six decimals
+    for mu in (0.0121505856, 3.0034e-6, 3.0404e-6):
+        sysm = System.from_mu(mu)
+        for k in (1, 2):
+            L = sysm.get_libration_point(k)
+            ctx.case(("public-api", mu, k), nontrivial=True, kind="public-api:L%d" % k)
+            try:
+                H = L.hamiltonian(N, "physical")
+                blocks = [np.asarray(b) for b in H.poly_H]
+                hs = H.hamsys
+                y = np.array([rng.uniform(-0.02, 0.02) for _ in range(6)])
+                r_pub = np.asarray(hs.rhs(0.0, y), dtype=float)
+                jac, clmo, nd = hs.rhs_params
+                r_own = np.asarray(_hamiltonian_rhs(y, jac, clmo, nd), dtype=float)
+            except Exception as ex:
+                ctx.violation("public-api-raises:L%d" % k, "point.hamiltonian(%d, 'physical') / hamsys.rhs raised %r" % (N, ex), {"mu": mu, "point": k})
+                return
+            direct = [np.asarray(b) for b in _build_physical_hamiltonian_collinear(L, N)]
+            if not (len(blocks) == len(direct) and all(np.array_equal(a, b) for a, b in zip(blocks, direct))):
+                d = max(float(np.abs(a - b).max()) for a, b in zip(blocks, direct) if a.shape == b.shape and a.size)
+                ctx.violation("public-hamiltonian-is-not-this-points:L%d" % k,
+                              "point.hamiltonian(%d, 'physical').poly_H of L%d, mu=%r is not the polynomial the builder produces for this point (max coefficient difference %.3g)" % (N, k, mu, d),
+                              {"mu": mu, "point": k, "degree": N, "history": "systems from_mu(0.0121505856), (3.0034e-6), (3.0404e-6) in one session, L1 then L2 each",
+                               "max_coefficient_difference": d})
+                return
+            if not np.array_equal(r_pub, r_own):
+                ctx.violation("public-rhs-is-not-this-hamiltonians:L%d" % k,
+                              "hamsys.rhs of point.hamiltonian(%d, 'physical') (L%d, mu=%r) is not the Hamilton field of its own polynomial (max difference %.3g)" % (
+                                  N, k, mu, float(np.abs(r_pub - r_own).max())),
+                              {"mu": mu, "point": k, "degree": N, "state": y.tolist(), "rhs": r_pub.tolist(), "hamilton_field_of_own_polynomial": r_own.tolist()})
+                return
+            s0 = tr._local2synodic_collinear(L, np.zeros(6))
+            pos = np.asarray(L.position, dtype=float)
+            dev = float(np.abs(s0[:3] - pos).max())
+            ctx.extra.setdefault("origin_vs_position", {})["%g:L%d" % (mu, k)] = dev
+            if not dev <= 5e-12:
+                ctx.violation("local-origin:L%d" % k, "the local origin of L%d, mu=%r is mapped %.3g away from point.position (gamma and the position are two "
+                              "independent root solves of the same equilibrium)" % (k, mu, dev),
+                              {"mu": mu, "point": k, "image_of_origin": s0.tolist(), "position": pos.tolist(), "gamma": float(L.dynamics.gamma)})
+                return
 
 
 def numerics(ctx):
